@@ -280,6 +280,14 @@ func (x *Exec) choose(kind string, conds []*Term, exhaustive bool) int {
 			feas = append(feas, i)
 		case "unsat":
 		default:
+			if d := os.Getenv("SYMGO_DUMP_UNKNOWN"); d != "" {
+				x.sol.dumpDir, x.sol.dumpLimit = d, 1000
+				x.sol.Push()
+				x.sol.Assert(x.ts, c)
+				x.sol.send("(check-sat)\n")
+				x.sol.Dump("unknown")
+				x.sol.Pop()
+			}
 			x.unknowns++
 			feas = append(feas, i) // keep: sound
 		}
